@@ -2,8 +2,12 @@ PROP = dict(
     id="C39",
     engines=["c39"],
     go_tags=["c39"],
+    extract_files={"MM/Gen/LockC39.lean": {"cmd": ["go", "run", "{VERIF}/tools/lockshape.go", "LockC39",
+        "{REPO}/internal/agent/agent.go", "Agent.handleControlRequest,Agent.handleControlResponse,Agent.SendControlRequestWithData",
+        "controlMu", "pendingControl,forwardedControl,nextControlID"]}},
     lean_modules=["MM.Props.C39"],
     theorems=[
+        "MM.C39.C39_lock_control_maps",
         "MM.C39.sync_step",
         "MM.C39.C39_partial",
         "MM.C39.sync_init",
